@@ -507,3 +507,28 @@ Theorem C13_hmmer_dropped_ok : forall limit cutoffs hits out,
   hh_dropped_ok limit (cut_of cutoffs) hits out = true.
 Proof. exact hmmer_dropped_ok. Qed.
 Print Assumptions C13_hmmer_dropped_ok.
+
+
+(* ---- find_hmmer_hits applies the two filters in this order: the competition of equivalent profiles (filter_results),
+   then the best hit of each profile among what the competition left (filter_result_multiple).  Per gene the outcome is
+   frm_cds of the competition's survivors, so C13_frm_best_per_profile holds relative to THOSE: a survivor is a survivor of
+   the competition and the best of its profile among them, and every profile that the competition left a hit above -1
+   keeps one.  In the other order (seeded change of round 6) a profile can disappear although one of its hits lost to
+   nothing *)
+Theorem C13_find_hits_filters_spec : forall eqgs results by_id r,
+  filter_results eqgs results by_id = Ok r ->
+  exists out, find_hits_filters eqgs results by_id = Ok out /\
+    snd out = map (fun g => frm_cds (map to_mhit g)) (snd r) /\
+    forall g, In g (snd r) ->
+      (forall h, In h (frm_cds (map to_mhit g)) ->
+         In h (map to_mhit g) /\ -2 < m_sc h /\
+         forall h', In h' (map to_mhit g) -> m_prof h' = m_prof h -> m_sc h' <= m_sc h) /\
+      (forall h', In h' (map to_mhit g) -> -2 < m_sc h' -> exists h, In h (frm_cds (map to_mhit g)) /\ m_prof h = m_prof h').
+Proof. exact find_hits_filters_spec. Qed.
+Print Assumptions C13_find_hits_filters_spec.
+
+Theorem C13_find_hits_filters_swapped_refuted : exists eqgs results by_id out,
+  find_hits_filters eqgs results by_id = Ok out /\ map (map m_id) (snd out) = [[0; 3]] /\
+  find_hits_filters_swapped eqgs results by_id = Ok ([3], [[3]]).
+Proof. exact find_hits_filters_swapped_differs. Qed.
+Print Assumptions C13_find_hits_filters_swapped_refuted.
